@@ -19,13 +19,15 @@ RULE = ('Hypothesis-generated histories (<= 40 ops: create/add/replace/remove/de
         'int id was used. Distinct = sha1 of the canonical JSON of the case.')
 ASSUMPTIONS = [
     'result order of get/entities/get_components is not compared (multisets of identities)',
-    'explicit ids passed to create_entity never own components at that moment; one create call never gets '
-    'two components of one exact type; an instance is attached to one entity at a time',
+    'an explicit id passed to create_entity either owns nothing at that moment, or (merge operation) owns components '
+    'of OTHER exact types than the new ones - then the entity may end up with old and new components or with the '
+    'new ones only, whichever get_components tells, and every other query must agree with it; one create call never '
+    'gets two components of one exact type; an instance is attached to one entity at a time',
     'an id whose row vanished while its deletion was pending is not re-populated before the next process()',
     'a mutating operation that raises ends the case (counted as op_raised): C05/C02 judge those',
 ]
 WEIGHTS = {'create': 6, 'add': 8, 'remove': 5, 'delete': 3, 'delete_now': 2, 'process': 3, 'clear': 1,
-           'toggle': 1, 'revive': 2}
+           'toggle': 1, 'revive': 2, 'merge': 2}
 FINDINGS = {}
 FUZZ_RUNS = 20000      # thorough tier: coverage-guided stage (vlib/fuzz.py), when atheris is installed
 
